@@ -32,11 +32,26 @@ class CFG:
         self.n = n
         self.succ = [[] for _ in range(n)]
         self.pred = [[] for _ in range(n)]
+        # Coroutine bodies arrive after the state-machine transform: block 0 dispatches on the saved state
+        # and every suspension point is `discriminant = N; return`.  Re-link each suspension to its resume
+        # block so that dominance and reachability follow the source order of the async fn again.
+        resume = {}
+        if getattr(fn, 'coroutine', False) and bl and bl[0]['t']['k'] == 'switch':
+            for v, tb in bl[0]['t']['targets']:
+                resume[int(v)] = tb
         for i, b in enumerate(bl):
             if b['t'].get('cleanup'):
                 continue
             seen = set()
-            for s in term_succs(b['t']):
+            succs = term_succs(b['t'])
+            if resume:
+                if i == 0:
+                    succs = [resume[0]] if 0 in resume else succs
+                elif b['t']['k'] == 'return':
+                    for st in b['s']:
+                        if 'setdiscr' in st and st['vi'] >= 3 and st['vi'] in resume:
+                            succs = [resume[st['vi']]]
+            for s in succs:
                 if s in seen:
                     continue
                 seen.add(s)
@@ -368,3 +383,41 @@ def resolve_const(fn, defs, op, depth=8):
 def resolve_str(fn, defs, op):
     c = resolve_const(fn, defs, op)
     return str_const(c) if c else None
+
+
+PASS_THROUGH = ('as_bytes', 'as_str', 'as_ref', 'deref', 'borrow', 'as_slice', 'as_mut', 'clone', 'to_owned', 'into', 'from')
+
+
+def root_of(fn, defs, op, depth=0):
+    """Where an operand's value comes from: ('param', n) | ('call', callee_name, term) | ('const', v) | ('local', l).
+    Follows moves, reborrows and view conversions (as_bytes, deref, ...)."""
+    from .facts import callee_name as _cn
+    for _ in range(14):
+        if op is None:
+            return ('unknown', None)
+        if 'k' in op:
+            return ('const', op.get('v'))
+        p = op_place(op)
+        if p is None:
+            return ('unknown', None)
+        l = p[0]
+        if 1 <= l <= fn.argc:
+            return ('param', l)
+        ds = defs.get(l, [])
+        if len(ds) != 1:
+            return ('local', l)
+        _, kind, pl = ds[0]
+        if kind == 'call':
+            n = _cn(pl) or ''
+            if n.rsplit('::', 1)[-1] in PASS_THROUGH and pl['args']:
+                op = pl['args'][0]
+                continue
+            return ('call', n, pl)
+        v = pl
+        if v['r'] in ('use', 'cast'):
+            op = v['a']
+        elif v['r'] == 'ref':
+            op = {'c': v['p']}
+        else:
+            return ('local', l)
+    return ('unknown', None)
